@@ -467,6 +467,17 @@ class Program:
         """Static repository class of an expression inside `f`, if inferable."""
         if expr is None:
             return None
+        active = self.__dict__.setdefault("_expr_class_active", set())
+        key = (f.qualname, id(expr))
+        if key in active or len(active) > 200:
+            return None         # `x = x.step()`: the definition refers to itself - no class can be read off
+        active.add(key)
+        try:
+            return self._expr_class(f, expr)
+        finally:
+            active.discard(key)
+
+    def _expr_class(self, f: FuncInfo, expr: ast.expr) -> ClassInfo | None:
         if isinstance(expr, ast.Name):
             if f.self_name and expr.id == f.self_name and f.cls is not None and not f.is_classmethod:
                 return f.cls
